@@ -249,6 +249,10 @@ def gen(seed, tier):
         for o in ("n", "z1", "z2", "z99"):
             out.append(f"norm {arr([n], v)} {o}")
     out.append(f"norm a2x2:1,2,3,4 n")
+    # the default norm (root of the sum of squares) of matrices, stacks of matrices and higher ranks
+    for sh in ([2, 2], [3, 3], [2, 3], [4, 1], [1, 4], [2, 2, 2], [3, 4, 4], [2, 3, 3], [1, 1, 1], [2, 3, 3, 3], [2, 1, 2, 2], [5, 2, 2]):
+        for _ in range(2):
+            out.append(f"norm {arr(sh, [rng.randint(-9, 9) for _ in range(prod(sh))])} n")
     return out
 
 
